@@ -19,6 +19,7 @@ DECIDED += '; R7 demultiplexing keys are rebuilt from (ip, port): the remote hal
 DECIDED += '; a failed connect closes the socket it auto-bound and a closing wildcard listener sweeps its half-open children (shared C13-R3 / R4)'
 DECIDED += "; R4's listener clause follows the polarity of the test on the connection's state (the listener only behind a failed lookup or a dead connection)"
 DECIDED += '; every transition of the close handshake is implemented (shared C13-R10)'
+DECIDED += '; an aborted handshaking child is reaped on every abort path (shared C13-R1)'
 ASSUMPTIONS = []
 
 K = "turmoil_net::kernel::Kernel::"
